@@ -15,8 +15,10 @@ RULE = ("(A)+(B) Gen_Struct: every prefix (> < = @) x every sequence of up to K 
         "unpack / .bytes / tobytes of the library; the expected bytes are the spec's StructToks layout with native sizes for "
         "'@' (platform constants cross-checked against struct.calcsize at start-up). MC_Codec(int): le = byte-reversed be for "
         "every pattern. (C) random codes with counts, random values incl. subnormal/inf/-0.0 floats; random whole-byte contents "
-        "interpreted as le/be/ne and byteswapped (twice = identity is judged through the C03 byteswap semantics). Array forms "
-        "of struct codes are decided under C14.")
+        "interpreted as le/be/ne and byteswapped (twice = identity is judged through the C03 byteswap semantics). Array forms: "
+        "Arrays with struct-code and endian dtypes built and extended from array.array of every typecode (accepted exactly when "
+        "kind, width and native byte order agree, the items then read back equal; refused otherwise), tolist / tobytes / "
+        "byteswap (also decided under C14).")
 
 
 def platform_check():
@@ -63,5 +65,7 @@ def run(chk):
     chk.exhaustive = True
     chk.queue([fmtprogs.struct_program(rng) for _ in range(6000 if thorough else 1500)], 'random-struct')
     chk.queue([byteswap_program(rng) for _ in range(3000 if thorough else 600)], 'random-byteswap')
+    from harness import arrayprogs
+    chk.queue([arrayprogs.array_struct_program(rng) for _ in range(2500 if thorough else 600)], 'array-struct-codes')
     chk.flush()
     return chk.finish(rule=RULE, assumptions=ASSUME + ['platform is LP64 little-endian (checked at start-up)'])
